@@ -272,6 +272,8 @@ class World:
         b = nd.get('body', {'kind': 'prov'})
         if b['kind'] == 'prov':
             return ('ok', progen.prov(nd['name'], kw))
+        if b['kind'] == 'labels':           # a decision that may change from one invocation (iteration) to the next
+            return ('ok', b['v'][min(inv, len(b['v']) - 1)])
         return ('ok', b['v'])
 
     async def abody(self, idx, inst, kw):
